@@ -82,6 +82,7 @@ def grammar_files():
         "cycles": v + "/corpus/cycles.pest",
         "cycles2": v + "/corpus/cycles2.pest",
         "optim": v + "/corpus/optim.pest",
+        "tags": v + "/corpus/tags.pest",
     }
     bad = {n: v + "/corpus/bad/%s.pest" % n for n in ("leftrec", "undefined", "nonprogress", "syntaxerr", "duplicate")}
     for p in list(good.values()) + list(bad.values()):
